@@ -91,6 +91,9 @@ var (
 
 // nid numbers service names (1 and 2 are the reserved services of Model/Life.v)
 func (h *hrun) nid(name string) uint64 {
+	if len(name) > 8 {
+		return 3 // Model/Life.v TOO_LONG
+	}
 	if id, ok := gNameID[name]; ok {
 		return id
 	}
@@ -182,8 +185,12 @@ func (h *hrun) opListenPacket(node int, name string, adv, drained, sender bool) 
 	} else {
 		pc, err = h.nodes[node].ListenPacket(name)
 	}
+	asked := name
+	if name == "" && err == nil {
+		name = pc.LocalService() // an ephemeral name chosen by the node
+	}
 	h.do(fmt.Sprintf("ListenPacket %d %d %d %s", id, node, h.nid(name), CoqBool(adv)), err == nil,
-		fmt.Sprintf("ListenPacket#%d(%s:%q adv=%v drained=%v)", id, h.names[node], name, adv, drained))
+		fmt.Sprintf("ListenPacket#%d(%s:%q->%q adv=%v drained=%v)", id, h.names[node], asked, name, adv, drained))
 	if err != nil {
 		return nil
 	}
@@ -306,10 +313,16 @@ func (h *hrun) opReadOne(s *hsock) {
 	if s.drained {
 		return
 	}
-	_ = s.pc.SetReadDeadline(time.Now().Add(120 * time.Millisecond))
+	if h.r.Bool() {
+		_ = s.pc.SetReadDeadline(time.Now().Add(120 * time.Millisecond))
+	} else {
+		_ = s.pc.SetDeadline(time.Now().Add(120 * time.Millisecond))
+		_ = s.pc.SetWriteDeadline(time.Now().Add(120 * time.Millisecond))
+	}
 	buf := make([]byte, 64)
 	_, _, err := s.pc.ReadFrom(buf)
-	_ = s.pc.SetReadDeadline(time.Time{})
+	_ = s.pc.SetDeadline(time.Time{})
+	_ = s.pc.GetHopsToLive()
 	if err == nil {
 		// one of the waiting writers has finished
 		found := false
@@ -355,7 +368,12 @@ func (h *hrun) opListen(node int, name string, adv bool) {
 	} else {
 		li, err = h.nodes[node].Listen(name, cfg)
 	}
-	h.do(fmt.Sprintf("Listen %d %d %d %s", id, node, h.nid(name), CoqBool(adv)), err == nil, fmt.Sprintf("Listen#%d(%s:%q adv=%v tls=%v)", id, h.names[node], name, adv, cfg != nil))
+	asked := name
+	if name == "" && err == nil {
+		name = li.Addr().String()
+		name = name[strings.LastIndex(name, ":")+1:]
+	}
+	h.do(fmt.Sprintf("Listen %d %d %d %s", id, node, h.nid(name), CoqBool(adv)), err == nil, fmt.Sprintf("Listen#%d(%s:%q->%q adv=%v tls=%v)", id, h.names[node], asked, name, adv, cfg != nil))
 	if err != nil {
 		return
 	}
@@ -422,6 +440,15 @@ func (h *hrun) opDial(dnode int, kind string, l *hlis, s *hsock) {
 		if l.closed {
 			timeout = 1500 * time.Millisecond
 		}
+	case "short-ctx": // the caller's context ends somewhere during the dial
+		tnode, tname = l.node, l.name
+		if !l.tls {
+			cfg = nil
+		}
+		timeout = time.Duration(h.r.Intn(12000)) * time.Microsecond
+	case "tls-mismatch": // receptor's default client configuration against a listener with a foreign certificate
+		tnode, tname = l.node, l.name
+		cfg = nil
 	case "unbound":
 		tnode, tname = h.upNodes()[h.r.Intn(len(h.upNodes()))], fmt.Sprintf("nx%d", h.r.Intn(100))
 	case "psock":
@@ -442,7 +469,31 @@ func (h *hrun) opDial(dnode int, kind string, l *hlis, s *hsock) {
 		}
 		h.do(fmt.Sprintf("DialFail %d", dnode), true, fmt.Sprintf("Dial(%s -> %s:%q %s) failed: %v", h.names[dnode], h.names[tnode], tname, kind, err))
 		h.res.hist("dial-fail:" + kind)
+		if kind == "short-ctx" {
+			// the accepting side may have got as far as handing the stream over: it is the
+			// application's to close
+			time.Sleep(20 * time.Millisecond)
+			for stray := true; stray; {
+				select {
+				case ac := <-l.acc:
+					_ = ac.Close()
+					h.res.hist("dial-fail:short-ctx:accepted-anyway")
+				default:
+					stray = false
+				}
+			}
+		}
 		return
+	}
+	if kind == "tls-mismatch" {
+		h.res.violate(fmt.Sprintf("dial %s -> %s:%q with receptor's default client TLS against a listener with a foreign certificate succeeded", h.names[dnode], h.names[tnode], tname), "dial-succeeded-unexpectedly", h.labels)
+		_ = c.CloseConnection()
+		h.aborted = true
+		return
+	}
+	if kind == "short-ctx" {
+		kind = "listener"
+		h.res.hist("dial-ok:short-ctx")
 	}
 	if kind != "listener" || l.closed {
 		h.res.violate(fmt.Sprintf("dial %s -> %s:%q (%s, nothing accepts there) succeeded", h.names[dnode], h.names[tnode], tname, kind), "dial-succeeded-unexpectedly", h.labels)
@@ -556,7 +607,7 @@ func (h *hrun) opStreamOp2(c *hconn, dialler bool, kind string) {
 
 func (h *hrun) opPing(node int) {
 	var err error
-	kind := h.r.Intn(3)
+	kind := h.r.Intn(5)
 	others := []int{}
 	for _, i := range h.upNodes() {
 		if i != node {
@@ -568,6 +619,19 @@ func (h *hrun) opPing(node int) {
 		_, _, err = h.nodes[node].Ping(context.Background(), "nowhere", 8)
 	case kind == 1:
 		_, _, err = h.nodes[node].Ping(context.Background(), h.names[others[0]], 0)
+	case kind == 3: // the caller's context is already over
+		ctx, cancel := context.WithCancel(context.Background())
+		cancel()
+		_, _, err = h.nodes[node].Ping(ctx, h.names[others[0]], 8)
+	case kind == 4: // Traceroute: one Ping per hop budget until the target answers
+		ctx, cancel := context.WithTimeout(context.Background(), 5*time.Second)
+		n := 0
+		for res := range h.nodes[node].Traceroute(ctx, h.names[others[len(others)-1]]) {
+			n++
+			err = res.Err
+		}
+		cancel()
+		h.res.hist(fmt.Sprintf("traceroute-hops:%d", n))
 	default:
 		_, _, err = h.nodes[node].Ping(context.Background(), h.names[others[h.r.Intn(len(others))]], 8)
 	}
@@ -720,8 +784,8 @@ func (h *hrun) history(n int, allowShutdown bool, idx int) {
 	// two disjoint name pools: the concurrent sender aims at names of listeners and of sockets
 	// that have a reader; a socket nobody reads never gets one of those names (a datagram from
 	// another node waiting on it would hold up that node's whole link)
-	poolRead := []string{"d1", "d2", "svcA", "svcB", "longname"}
-	poolIdle := []string{"s1", "s2", "s3", "ping"}
+	poolRead := []string{"d1", "d2", "svcA", "svcB", "longname", "", "ninechars"}
+	poolIdle := []string{"s1", "s2", "s3", "ping", "", "unreach", "much-too-long"}
 	// the senders of waiting datagrams and of the concurrent traffic are ordinary sockets
 	var floodSocks []*hsock
 	for i := range h.nodes {
@@ -824,7 +888,19 @@ func (h *hrun) history(n int, allowShutdown bool, idx int) {
 					open = append(open, l)
 				}
 			}
-			switch y := r.Intn(10); {
+			var openTLS []*hlis
+			for _, l := range open {
+				if l.tls {
+					openTLS = append(openTLS, l)
+				}
+			}
+			switch y := r.Intn(12); {
+			case y >= 10 && len(open) > 0:
+				if y == 11 && len(openTLS) > 0 {
+					h.opDial(node, "tls-mismatch", openTLS[r.Intn(len(openTLS))], nil)
+				} else {
+					h.opDial(node, "short-ctx", open[r.Intn(len(open))], nil)
+				}
 			case y < 7 && len(open) > 0:
 				h.opDial(node, "listener", open[r.Intn(len(open))], nil)
 			case y < 8 && len(h.liss) > 0:
